@@ -48,14 +48,14 @@ class EEMSRead(Command):
                 )
 
             values = []
-            for i, row in enumerate(reader):
+            for row in reader:
                 if row:
                     try:
                         values.append(float(row[idx]))
                     except ValueError:
                         raise InvalidDataFile(
                             'The data file contains an invalid value in the field "{}" on line {}.'.format(
-                                field_name, i + 2
+                                field_name, reader.line_num
                             ),
                             solution="Verify that the data file doesn't contain any empty or NULL values, and that all values are numeric.",
                         )
